@@ -304,6 +304,6 @@ func init() {
 		Enumerate:   c07Enumerate,
 		Run:         c07Run,
 		CaseTimeout: 60 * time.Second,
-		Budget:      map[string]time.Duration{"quick": 170 * time.Second, "thorough": 40 * time.Minute},
+		Budget:      map[string]time.Duration{"quick": 400 * time.Second, "thorough": 40 * time.Minute},
 	})
 }
